@@ -158,15 +158,34 @@ def fifo_one(exe_c, seq, timeout=120):
     return cl, ml, err, rc
 
 
+def fifo_valid(seq):
+    """the caller's obligations (ValidOps of the Lean development): trims never remove more than is queued."""
+    occ = 0
+    for op in seq:
+        t = op.split(); n = int(t[1]) if len(t) > 1 else 0
+        if t[0] == "create": occ = 0
+        elif t[0] in ("write", "reserve"): occ += n
+        elif t[0] == "read": occ -= n if n <= occ else 0
+        elif t[0] == "trim_to":
+            if n > occ: return False
+            occ = n
+        elif t[0] == "trim_by":
+            if n > occ: return False
+            occ -= n
+        elif t[0] == "clear": occ = 0
+    return True
+
+
 def fifo_minimise(exe_c, seq, still_bad):
-    """greedy: drop ops (never the create) while the failure persists."""
+    """greedy: drop ops (never the create) while the sequence stays valid and the failure persists."""
     cur = list(seq); budget = 200
     i = len(cur) - 1
     while i >= 1 and budget > 0:
         cand = cur[:i] + cur[i + 1:]
-        budget -= 1
-        if still_bad(cand):
-            cur = cand
+        if fifo_valid(cand):
+            budget -= 1
+            if still_bad(cand):
+                cur = cand
         i -= 1
     return cur
 
